@@ -32,3 +32,6 @@ func rtExplore(bound int, stop func() bool, mk func() func(), check func(x *exec
 }
 
 func rtRun(prefix []int, body func()) *execT { return vsync.Run(prefix, body) }
+
+// rtSeq runs f alone under the scheduler (one thread, default schedule).
+func rtSeq(f func()) { vsync.Run(nil, f) }
